@@ -17,7 +17,10 @@ LOG=$OUT/confirm.log
 : > $LOG
 # demo placement: first path-like mention of a tests/ file in the notes, else by crate guess
 DEMO=$(ls $OUT/demo/*.rs 2>/dev/null | head -1)
-PLACE=$(cat $OUT/demo/*.txt $OUT/demo/*.md $OUT/meta.json 2>/dev/null | grep -oE '(bemodel|hulc|hulc_tests|climate|hulc2model)/tests/[A-Za-z0-9_]+\.rs' | head -1)
+# (a path naming the demo file itself wins; a test file that exists in the repository is never taken as the place)
+PLACES=$(cat $OUT/demo/*.txt $OUT/demo/*.md $OUT/meta.json 2>/dev/null | grep -oE '(bemodel|hulc|hulc_tests|climate|hulc2model)/tests/[A-Za-z0-9_]+\.rs')
+PLACE=$(echo "$PLACES" | grep -F "/$(basename $DEMO)" | head -1)
+[ -z "$PLACE" ] && for c in $PLACES; do [ -e $WT/$c ] || { PLACE=$c; break; }; done
 [ -z "$PLACE" ] && PLACE=bemodel/tests/$(basename $DEMO)
 CRATE=$(echo $PLACE | cut -d/ -f1)
 TESTNAME=$(basename $PLACE .rs)
